@@ -169,6 +169,16 @@ static void run_op(Th& t, const std::string& opline) {
         else if (op == "nearest") { GEOSCoordSequence* cs = GEOSNearestPoints_r(h, g1, g2); r = cs ? GEOSGeom_createLineString_r(h, cs) : nullptr; }
         t.put(a, r); t.emit(t.gh(r)); return;
     }
+    // ---- fixed-precision operations (snap-rounding). Their results may differ in the SIGN OF ZERO between identical calls (random insertion
+    //      order in HotPixelIndex), so the result is not kept and the transcript records quantities that do not see the sign of zero.
+    if (op == "setprec" || op == "unionprec" || op == "interprec" || op == "diffprec" || op == "uunionprec") {
+        ss >> a >> b >> d; const GEOSGeometry *g1 = t.get(a), *g2 = t.get(b); if (!g1 || (!g2 && op != "setprec" && op != "uunionprec")) { t.emit("NULL"); return; }
+        GEOSGeometry* r = op == "setprec" ? GEOSGeom_setPrecision_r(h, g1, d, 0) : op == "uunionprec" ? GEOSUnaryUnionPrec_r(h, g1, d) : op == "unionprec" ? GEOSUnionPrec_r(h, g1, g2, d)
+                        : op == "interprec" ? GEOSIntersectionPrec_r(h, g1, g2, d) : GEOSDifferencePrec_r(h, g1, g2, d);
+        if (!r) { t.emit("NULL"); return; }
+        double ar = 0, ln = 0; GEOSArea_r(h, r, &ar); GEOSLength_r(h, r, &ln);
+        t.emit(dbl(ar + 0.0) + ":" + dbl(ln + 0.0) + ":" + std::to_string(GEOSGetNumCoordinates_r(h, r))); GEOSGeom_destroy_r(h, r); return;
+    }
     // ---- a prepared geometry owned by this thread (built lazily, used, destroyed here)
     if (op == "prepq") {
         ss >> a >> b; const GEOSGeometry *g1 = t.get(a), *g2 = t.get(b); if (!g1 || !g2) { t.emit("NULL"); return; }
